@@ -13,7 +13,7 @@ of this language on every run (`Extracted/PyCodec.lean`).  This file is the fixe
 Values (`Val`): `py v` — a value of the hand model's tagged universe `Codec.PyVal` (None, bool, int, float token, str,
 bytes, datetime / date / time records, Decimal token, uuid / json / pickled tokens, instance handles, `other`);
 `strs` — a list of `str` (what `str.split` returns); `cls` — a class or function object named by its (dotted) source
-name (`int`, `datetime.datetime`, `Decimal`, …); `tuple`; `obj` — an object identified by its ACCESS PATH (`self`,
+name (`int`, `datetime.datetime`, `Decimal`, …); `tuple`; `col i` — the i-th column object of the class; `obj` — an object identified by its ACCESS PATH (`self`,
 `state`, `state.soObject._connection`, …): its attributes are read through the interface; `mview` — a `memoryview`
 over bytes; `floorOf t` — the float `t // 1` (float arithmetic is not interpreted).
 
@@ -36,7 +36,8 @@ int, str, bytes, lists, tuples, classes, objects, date/time records), `==` / `!=
 `==` / `!=` on str, `in` for `str in str` and `value in list-of-str`, `+` on str and int, `-` on int, `str * int`,
 `len` of str / list, `s[i]` / `l[i]` (negative indices), `s[:n]`, `l[-1] = v` on a list local, `str.split(sep)`,
 `sep.join(list)`, `str.find(t)`, tuple unpacking, `if`, `for` with `break`, `try / except <classes> / else`, `raise`,
-`return`.
+`return`; `setattr(self, name, v)` with a computed name appends to a WRITE LOG kept in the reserved slot `LOG` (the
+embedding has no heap).
 
 `R.unmodelled` = the hand model of the standard library has no answer (it propagates like an error that nothing
 catches); `stuck` = outside the fragment (a `NameError`, an unbound local, a construct the semantics does not cover):
@@ -59,6 +60,7 @@ inductive Val where
   | obj (path : String)
   | mview (b : Str)
   | floorOf (t : FTok)
+  | col (i : Nat)                  -- the i-th column object of the class (`sqlmeta.columnList[i]`)
 
 inductive Exc where
   | invalid | attributeError | valueError | typeError | assertionError | other
@@ -131,6 +133,7 @@ def truthy (I : Iface) : Val → R Bool
   | .tuple l => .ok (!l.isEmpty)
   | .cls _ => .ok true
   | .obj _ => .ok true
+  | .col _ => .ok true
   | v => I.truth v
 
 /-- `isinstance(v, C)` for one class -/
@@ -143,6 +146,7 @@ def isInst1 (I : Iface) (v : Val) (c : String) : R Bool :=
   | .mview _ => .ok (c == "memoryview")
   | .floorOf _ => .ok (c == "float")
   | .obj _ => .unmodelled
+  | .col _ => .unmodelled
 
 /-- `isinstance(v, (C1, C2, …))`: Python tests the classes in order and stops at the first hit -/
 def isInstAny (I : Iface) (v : Val) : List Val → R Bool
@@ -323,10 +327,12 @@ inductive Stmt where
   | assign (t : Target) (e : Expr)
   | setLast (x : Nat) (v : Expr)                          -- `x[-1] = v` (a list local)
   | setSelfAttr (slot : Nat) (e : Expr)                   -- `self.a = e`
+  | setattr (o n v : Expr)                                -- `setattr(o, n, v)` with a computed name
   | ite (c : Expr) (t e : Block)
   | for (t : Target) (it : Expr) (body : Block)
   | try (body : Block) (hs : Handlers) (orelse : Block)
   | raise (cls : String)
+  | assert (c : Expr)                                    -- `assert c, msg` (the message is not evaluated)
   | ret (e : Expr)
   | expr (e : Expr)
   | brk
@@ -514,6 +520,22 @@ def setLastOf (env : Env) (x : Nat) (v : Val) : Option Env :=
   | some (.strs l), .py (.str s) => if l.isEmpty then Option.none else some (env.put x (.strs (setLast l s)))
   | _, _ => Option.none
 
+/-- the slot in which the semantics keeps the WRITE LOG of `setattr(self, name, value)`: the instance attributes
+    assigned under computed names, in order (the embedding has no heap: what a method does to the instance's `__dict__`
+    is observable as this log) -/
+def LOG : Nat := 1000
+
+def logOf (env : Env) : List Val :=
+  match env LOG with
+  | some (.tuple l) => l
+  | _ => []
+
+/-- `setattr(self, name, v)` -/
+def setattrOf (env : Env) (o n v : Val) : Option Env :=
+  match o, n with
+  | .obj _, .py (.str _) => some (env.put LOG (.tuple (logOf env ++ [.tuple [n, v]])))
+  | _, _ => Option.none
+
 /-- what a `try` does with the outcome of its body -/
 def tryRes (r : Res) (handle : Env → Exc → Res) (orelse : Env → Res) : Res :=
   match r with
@@ -538,6 +560,8 @@ def Stmt.exec (I : Iface) (env : Env) : Stmt → Res
   | .assign t e => withR env (e.eval I env) fun v => normOpt (t.bind env v)
   | .setLast x v => withR env (v.eval I env) fun vv => normOpt (setLastOf env x vv)
   | .setSelfAttr slot e => withR env (e.eval I env) fun v => .norm (env.put slot v)
+  | .setattr o n v => withR env (o.eval I env) fun ov => withR env (n.eval I env) fun nv =>
+      withR env (v.eval I env) fun vv => normOpt (setattrOf env ov nv vv)
   | .ite c t e => withR env (c.eval I env) fun v => withR env (truthy I v) fun b =>
       if b then t.exec I env else e.exec I env
   | .for t it body => withR env (it.eval I env) fun v =>
@@ -550,6 +574,8 @@ def Stmt.exec (I : Iface) (env : Env) : Stmt → Res
       match excOfClass c with
       | some e => .exc env e
       | Option.none => .stuck
+  | .assert c => withR env (c.eval I env) fun v => withR env (truthy I v) fun b =>
+      if b then .norm env else .exc env .assertionError
   | .ret e => withR env (e.eval I env) fun v => .ret env v
   | .expr e => withR env (e.eval I env) fun _ => .norm env
   | .brk => .brk env
